@@ -103,7 +103,10 @@ func init() {
 			v, _ := e.omComp(env.cur, "OM_"+la+"_v", "(Array String String)")
 			d, _ := e.omComp(env.cur, "OM_"+la+"_d", "(Array String Bool)")
 			a, b := e.refOfVal(args[0]), e.refOfVal(args[1])
-			return Val{T: tBool, Term: And(Eq(Select(d, a), Select(d, b)), Eq(Select(v, a), Select(v, b)))}, nil
+			e.nfresh++
+			kq := fmt.Sprintf("kq%d", e.nfresh)
+			return Val{T: tBool, Term: And(Eq(Select(d, a), Select(d, b)),
+				fmt.Sprintf("(forall ((%s String)) (=> (select %s %s) (= (select %s %s) (select %s %s))))", kq, Select(d, a), kq, Select(v, a), kq, Select(v, b), kq))}, nil
 		}
 	}
 	specFuncs["ContainsFinalizer"] = func(e *Exec, env *Env, args []Val) (Val, error) {
